@@ -237,6 +237,10 @@ def ops19 : List (String × Op) := [
     | _ => do
       let m ← field j "arg" >>= asInt
       .ok (replyInPlace (decide (Pre_kmode n m)) (validate_kmode n m))),
+  ("c19_nvecs", fun j => do
+    let shape ← field j "shape" >>= asNats
+    let m ← field j "arg" >>= asInt
+    .ok (reply (decide (Pre_kmode shape.length m)) (validate_kmode shape.length m))),
   ("c19_mask", fun j => do
     let shape ← field j "shape" >>= asNats
     let w ← field j "wshape" >>= asNats
